@@ -20,6 +20,11 @@ fn fmatch_ref(prod: f64, used: f64) -> f64 {
     }
 }
 
+/// the harness' own reading of "EPB service" (not the subject's predicate)
+fn own_is_epb(service: &str) -> bool {
+    service != "NEPB" && service != "COGEN"
+}
+
 fn step_regime(pv: f64, chp: f64, us: f64) -> &'static str {
     if pv + chp == 0.0 {
         "no_production"
@@ -45,10 +50,28 @@ fn check_pair(off: &EnergyPerformance, on: &EnergyPerformance, cfg: &str, out: &
     let mag = subj::magnitude(&off.components, &off.wfactors);
     let t = subj::tol(mag);
     let n = boff.used.epus_t.len();
+    // the EPB electricity use as declared: EPB services' electricity + auxiliaries tagged with an EPB service
+    // (auxiliaries of a system without EPB service keep the tag NEPB / COGEN and are non-EPB use)
+    let mut us_in = vec![0.0f64; n];
+    for c in &off.components.data {
+        let v: Option<&Vec<f32>> = match c {
+            cteepbd::types::Energy::Used(e) if e.carrier == Carrier::ELECTRICIDAD && own_is_epb(&format!("{}", e.service)) => Some(&e.values),
+            cteepbd::types::Energy::Aux(e) if own_is_epb(&format!("{}", e.service)) => Some(&e.values),
+            _ => None,
+        };
+        if let Some(v) = v {
+            for (i, x) in v.iter().enumerate().take(n) {
+                us_in[i] += *x as f64;
+            }
+        }
+    }
     for (lm, b) in [(false, boff), (true, bon)] {
         let cfg = format!("{cfg} load_matching={lm}");
         for i in 0..n {
             let us = b.used.epus_t[i] as f64;
+            if !close(us, us_in[i], t) {
+                out.viol("epb_use_is_the_declared_one", &[], &cfg, format!("step {i}: EPB electricity use of the balance = {us}"), format!("declared: {}", us_in[i]));
+            }
             let pv = get(&b.prod.by_src_t, ProdSource::EL_INSITU).map(|v| v[i] as f64).unwrap_or(0.0);
             let chp = get(&b.prod.by_src_t, ProdSource::EL_COGEN).map(|v| v[i] as f64).unwrap_or(0.0);
             let f = b.f_match[i] as f64;
@@ -147,6 +170,8 @@ fn el_slots(t: usize, vals: &[V], second: bool) -> Vec<Vec<Letter>> {
         // a zero-valued PV line / CHP line present (source exists, produces nothing), a second service
         s.push(vec![Letter::many(vec![]), Letter::one(p(Some(1), "EL_INSITU", &vec![0; t])), Letter::one(u(Some(1), "ACS", "ELECTRICIDAD", &vs[vs.len() - 1]))]);
         s.push(vec![Letter::many(vec![]), Letter::many(vec![p(Some(3), "EL_COGEN", &vec![0; t]), u(Some(3), "COGEN", "GASNATURAL", &vs[1])])]);
+        // a cogenerator with its own auxiliaries (non-EPB use: the system serves no EPB service)
+        s.push(vec![Letter::many(vec![]), Letter::many(vec![p(Some(4), "EL_COGEN", &vs[vs.len() - 1]), u(Some(4), "COGEN", "GASNATURAL", &alpha::scale(&vs[vs.len() - 1], 2, 1)), a(Some(4), &vs[1])])]);
     }
     s
 }
